@@ -205,9 +205,21 @@ func vfC05Transfer(sess *vfSession, a vfC05Act, src, base string) string {
 	if a.Outcome == "succeeded" || a.Outcome == "forked" {
 		cfg.Timeout = 10 // nothing here depends on a timeout expiring: on a heavily loaded machine 2 s can expire by itself
 	}
+	var chatter *vfChatter
+	if a.Outcome == "refused" && !a.Upload && sess.opts.Relays == 0 {
+		// the wrapper refuses this download itself (the save directory does not exist): no transfer ever becomes active, so what the
+		// remote side prints and what the user types while the refusal is on its way must pass like at any other time (not through
+		// a relay: a relay that saw the trigger reads its client's answer junk-tolerantly and discards what is typed in front of it)
+		chatter = vfStartChatter(sess)
+	}
 	run, err := vfStartTransfer(sess, cfg, paths, dest)
 	if err != nil {
 		return "cannot start: " + err.Error()
+	}
+	if chatter != nil {
+		if m := chatter.finish(); m != "" {
+			return m
+		}
 	}
 	switch a.Outcome {
 	case "failed":
@@ -444,4 +456,82 @@ func TestVF_C05Exit(t *testing.T) {
 			}
 		}
 	}
+}
+
+// vfChatter prints numbered lines as the remote side and types numbered tokens as the user, from the moment a trigger has passed
+// the wire for 400 ms, and afterwards says which of them did not get through.
+type vfChatter struct {
+	sess  *vfSession
+	done  chan struct{}
+	lines [][]byte
+	toks  [][]byte
+	late  bool
+}
+
+func vfStartChatter(sess *vfSession) *vfChatter {
+	ch := &vfChatter{sess: sess, done: make(chan struct{})}
+	base := len(sess.s2c.transcript())
+	go func() {
+		defer close(ch.done)
+		deadline := time.Now().Add(5 * time.Second)
+		for !bytes.Contains(sess.s2c.transcript()[base:], []byte("::TRZSZ:TRANSFER:")) {
+			if time.Now().After(deadline) {
+				ch.late = true
+				return
+			}
+			time.Sleep(200 * time.Microsecond)
+		}
+		stop := time.Now().Add(400 * time.Millisecond)
+		for i := 0; time.Now().Before(stop); i++ {
+			line := []byte(fmt.Sprintf("<<remote-line-%04d>>\r\n", i))
+			tok := []byte(fmt.Sprintf("<<typed-%04d>>", i))
+			ch.lines = append(ch.lines, line)
+			ch.toks = append(ch.toks, tok)
+			sess.shellOutput(line)
+			sess.typeInput(tok)
+			time.Sleep(4 * time.Millisecond)
+		}
+	}()
+	return ch
+}
+
+func (ch *vfChatter) finish() string {
+	<-ch.done
+	if ch.late || len(ch.lines) == 0 {
+		return ""
+	}
+	// everything has been handed over; give the pumps a moment
+	last := ch.lines[len(ch.lines)-1]
+	deadline := time.Now().Add(3 * time.Second)
+	for time.Now().Before(deadline) && !bytes.Contains(ch.sess.termOut.bytes(), last) {
+		time.Sleep(2 * time.Millisecond)
+	}
+	out := ch.sess.termOut.bytes()
+	missing := 0
+	first := ""
+	for _, l := range ch.lines {
+		if !bytes.Contains(out, bytes.TrimRight(l, "\r\n")) {
+			missing++
+			if first == "" {
+				first = string(bytes.TrimRight(l, "\r\n"))
+			}
+		}
+	}
+	if missing > 0 {
+		return fmt.Sprintf("while the wrapper refused a download by itself (no transfer was ever active) %d of %d lines printed by the remote side did not reach the terminal (first: %s)", missing, len(ch.lines), first)
+	}
+	in := ch.sess.c2s.transcript()
+	missing = 0
+	for _, tk := range ch.toks {
+		if !bytes.Contains(in, tk) {
+			missing++
+			if first == "" {
+				first = string(tk)
+			}
+		}
+	}
+	if missing > 0 {
+		return fmt.Sprintf("while the wrapper refused a download by itself (no transfer was ever active) %d of %d typed tokens did not reach the remote side (first: %s)", missing, len(ch.toks), first)
+	}
+	return ""
 }
